@@ -65,6 +65,8 @@ def r1(ctx):
     ib = prog.body("link::crc::crc_increment")
     isym = ctx.sym(ib)
     ws = [isym.rvalue_expr(st.rv) for b, si, st in ib.assigns() if st.dest.is_local() and ib.local_name(st.dest.local) == "acc"]
+    for ch in family(prog, ib)[1:]:  # the byte loop written as slice.iter().fold(acc, |acc, byte| ..)
+        ws += [e for _, _, _, e in ret_sites(ch, ctx.sym(ch))] + [ctx.sym(ch).rvalue_expr(st.rv) for b, si, st in ch.assigns() if st.rv["k"] == "bin"]
     ok = any(mentions(e, lambda s: s[0] == "bin" and s[1] == "BitXor") and mentions(e, lambda s: s[0] == "bin" and s[1] == "Shr") and mentions_const(e, 8) and mentions(e, lambda s: s[0] == "index") for e in ws)
     ctx.check(ok, "crc_increment:step", "acc = CRC_TABLE[(acc as u8) ^ byte] ^ (acc >> 8)", ib.where(line=ib.line))
 
@@ -334,6 +336,8 @@ def r6(ctx):
     fp = fp[0]
     fs = ctx.sym(fp)
     crcs = [b for b in call_sites(fp, r"WriteCursor::write_u16_le$") if mentions_call(fs.call_expr(b.term), r"crc::calc_crc$")]
+    for ch in family(prog, fp)[1:]:  # the remaining-blocks loop written as chunks(..).try_for_each(|block| ..)
+        crcs += [b for b in call_sites(ch, r"WriteCursor::write_u16_le$") if mentions_call(ctx.sym(ch).call_expr(b.term), r"crc::calc_crc$")]
     ctx.check(len(crcs) == 2, "format:block-crcs", "first block and every following block end with calc_crc", fp.where(line=fp.line))
     sp = call_sites(fp, r"np_split_at_no_error$")
     ok = len(sp) == 1 and (mentions(fs.call_expr(sp[0].term)[2][1], lambda s: s[0] == "const" and s[1] == 15) or (mentions_constdef(fs.call_expr(sp[0].term)[2][1], r"MAX_BLOCK_SIZE$") and mentions_const(fs.call_expr(sp[0].term)[2][1], 1)))
